@@ -28,9 +28,11 @@ from pedal.sandbox.result import SandboxResult
 from pedal.sandbox.tracer import TRACER_STYLES
 
 
-def _has_literal_repr(value):
+def _has_literal_repr(value, _containers=()):
     """ Whether ``repr(value)`` is source code that evaluates back to the value;
     e.g., ``nan``, ``inf`` and arbitrary objects are not. """
+    if any(value is container for container in _containers):
+        return False    # a container inside itself prints as [...]
     # Exact types only: an instance of a subclass (an IntEnum member, ...) prints as something else
     if value is None or type(value) in (bool, int, str, bytes):
         return True
@@ -42,9 +44,10 @@ def _has_literal_repr(value):
         # frozenset({1}) and set() are calls of a name, which the student may have given another meaning
         return False
     if type(value) in (list, tuple, set):
-        return all(_has_literal_repr(item) for item in value)
+        return all(_has_literal_repr(item, _containers + (value,)) for item in value)
     if type(value) is dict:
-        return all(_has_literal_repr(k) and _has_literal_repr(v) for k, v in value.items())
+        return all(_has_literal_repr(k, _containers + (value,)) and _has_literal_repr(v, _containers + (value,))
+                   for k, v in value.items())
     return False
 
 
